@@ -112,6 +112,7 @@ package funcGen
 //@ type-contract BoolFunc
 //@   option params=st,a,b
 //@   requires self != nil && validStack(st)
+//@   requires[operands-present] nonnil(a) && nonnil(b)
 //@   ensures len(st.storage.data) >= old(len(st.storage.data))
 //@   ensures[storage-array] ref(st.storage.data) == old(ref(st.storage.data)) || fresh(st.storage.data)
 //@   ensures forall i in 0..st.offs+st.size :: st.storage.data[i] == old(st.storage.data[i])
